@@ -194,10 +194,10 @@ def descr_tx(iface: int, op1: int, op2: int, dv: int, sv: int, mv: int, pdv: int
     Descriptor transaction with two operations on related objects (m0, its parent ch0, sibling m1, new child m9), through the
     classic (iface 0) or the entity interface (iface 1).
     op: 0 none, 1 update descriptor m0, 2 update state of m0 (classic: needs op1 == 1 before), 3 update parent ch0,
-        4 create m9 (+state) under ch0, 5 remove m1, 6 remove m0.
+        4 create m9 (+state) under ch0, 5 remove m1, 6 remove m0, 7 remove the parent ch0 (with its subtree).
     pre: 0 <= iface <= 1
-    pre: 0 <= op1 <= 6
-    pre: 0 <= op2 <= 6
+    pre: 0 <= op1 <= 7
+    pre: 0 <= op2 <= 7
     pre: dv >= 0
     pre: sv >= 0
     pre: mv >= 0
@@ -256,11 +256,16 @@ def descr_tx(iface: int, op1: int, op2: int, dv: int, sv: int, mv: int, pdv: int
                             tr.remove_descriptor('m1')
                         else:
                             tr.remove_entity(pm.entities.by_handle('m1'))
-                    else:
+                    elif op == 6:
                         if iface == 0:
                             tr.remove_descriptor('m0')
                         else:
                             tr.remove_entity(pm.entities.by_handle('m0'))
+                    else:
+                        if iface == 0:
+                            tr.remove_descriptor('ch0')
+                        else:
+                            tr.remove_entity(pm.entities.by_handle('ch0'))
                     did.append(op)
         except Exception:  # noqa: BLE001 - the API rejected a call: whatever it raised, the transaction must have no effect
             rejected = True
@@ -270,16 +275,21 @@ def descr_tx(iface: int, op1: int, op2: int, dv: int, sv: int, mv: int, pdv: int
         else:
             _judge(pm, orc, mv, pre_v, pre_c, True, None)
             post_v = _versions(pm)
-            if 4 in did:
+            if 4 in did and 7 not in did:
                 orc.check(('d', 'm9') in post_v and ('s', 'm9') in post_v, 'created-entity-missing')
             if 5 in did:
                 orc.check(('d', 'm1') not in post_v and ('s', 'm1') not in post_v, 'removed-entity-still-present')
             if 6 in did:
                 orc.check(('d', 'm0') not in post_v and ('s', 'm0') not in post_v, 'removed-entity-still-present')
-            if (4 in did or 5 in did or 6 in did) and ('d', 'ch0') in post_v:
-                orc.check(post_v[('d', 'ch0')] > pdv, 'parent-version-not-increased-on-child-add-remove')
+            if (4 in did or 5 in did or 6 in did) and 7 not in did:
+                orc.check(('d', 'ch0') in post_v and post_v[('d', 'ch0')] > pdv, 'parent-version-not-increased-on-child-add-remove')
+            if 7 in did:
+                for h in ('ch0', 'm0', 'm1', 'm9'):
+                    orc.check(('d', h) not in post_v and ('s', h) not in post_v, 'removed-subtree-still-present')
+                orc.check(post_v[('d', 'vmd0')] > pre_v[('d', 'vmd0')], 'parent-version-not-increased-on-child-add-remove')
             # objects the transaction did not name and that are not the parent keep version and content
-            named = {('d', 'm0'), ('s', 'm0'), ('d', 'ch0'), ('s', 'ch0'), ('d', 'm1'), ('s', 'm1'), ('d', 'm9'), ('s', 'm9')}
+            named = {('d', 'm0'), ('s', 'm0'), ('d', 'ch0'), ('s', 'ch0'), ('d', 'm1'), ('s', 'm1'), ('d', 'm9'), ('s', 'm9'),
+                     ('d', 'vmd0'), ('s', 'vmd0')}
             post_c = _content(pm)
             for key, old in pre_v.items():
                 if key not in named:
@@ -386,6 +396,75 @@ def delete_saves_version(iface: int, dv: int, sv: int, mv: int) -> str:
         orc.check(d.DescriptorVersion > dv, 'recreated-descriptor-version-not-greater')
         orc.check(s.StateVersion > sv, 'recreated-state-version-not-greater')
         orc.check(pm.mdib_version == mv + 2, 'mdib-version-not-incremented-by-one')
+        for lab in k.referential_integrity(pm):
+            orc.fail(lab)
+    except Exception as ex:  # noqa: BLE001
+        return exc_result(orc, ex)
+    return orc.result()
+
+
+def stale_entity_write(kind: int, dv: int, sv: int, ev: int, esv: int, mv: int) -> str:
+    """
+    An entity copy that is OUTDATED (obtained earlier: its own counters ev / esv are lower than or equal to the MDIB's dv / sv)
+    is written back with changed content: the published counters must still exceed the ones the MDIB held before.
+    kind 0: descriptor transaction, single-state entity m0; 1: metric state transaction; 2: context transaction (multi-state
+    entity lc0, state lcs0); 3: descriptor transaction, multi-state entity lc0.
+    pre: 0 <= kind <= 3
+    pre: dv >= 0
+    pre: sv >= 0
+    pre: 0 <= ev <= dv
+    pre: 0 <= esv <= sv
+    pre: mv >= 0
+    post: __return__ == 'ok'
+    """
+    orc = Oracle()
+    try:
+        target = 'm0' if kind in (0, 1) else 'lc0'
+        pm, cap = _mk(dv, sv, mv, 0, target='m0', parent='ch0')
+        if kind in (2, 3):
+            d = pm.descriptions.handle.get_one('lc0')
+            d.DescriptorVersion = dv
+            for st in k.ctx_states(pm):
+                if st.DescriptorHandle == 'lc0':
+                    st.DescriptorVersion = dv
+        ent = pm.entities.by_handle(target)
+        # make the copy look as it looked when it was read earlier
+        ent.descriptor.DescriptorVersion = ev
+        if kind in (0, 1):
+            ent.state.StateVersion = esv
+            ent.state.DescriptorVersion = ev
+            ent.state.mk_metric_value()
+            ent.state.MetricValue.Value = 'new'
+        else:
+            ent.states['lcs0'].StateVersion = esv
+            ent.states['lcs0'].DescriptorVersion = ev
+            ent.states['lcs0'].LocationDetail = pm_types.LocationDetail(bed='new')
+        pre_v = _versions(pm)
+        if kind == 0:
+            ent.descriptor.SafetyClassification = pm_types.SafetyClassification.MED_A
+            with pm.descriptor_transaction() as tr:
+                tr.write_entity(ent)
+        elif kind == 1:
+            with pm.metric_state_transaction(set_determination_time=False) as tr:
+                tr.write_entity(ent)
+        elif kind == 2:
+            with pm.context_state_transaction() as tr:
+                tr.write_entity(ent, ['lcs0'])
+        else:
+            ent.descriptor.SafetyClassification = pm_types.SafetyClassification.MED_A
+            with pm.descriptor_transaction() as tr:
+                tr.write_entity(ent)
+        post_v = _versions(pm)
+        orc.check(pm.mdib_version == mv + 1, 'mdib-version-not-incremented-by-one')
+        for key, old in pre_v.items():
+            if key in post_v:
+                orc.check(post_v[key] >= old, 'version-decreased:' + key[0])
+        if kind in (0, 3):
+            orc.check(post_v[('d', target)] > pre_v[('d', target)], 'content-changed-without-version-increase:d')
+        if kind in (0, 1):
+            orc.check(post_v[('s', 'm0')] > pre_v[('s', 'm0')], 'content-changed-without-version-increase:s')
+        else:
+            orc.check(post_v[('c', 'lcs0')] > pre_v[('c', 'lcs0')], 'content-changed-without-version-increase:c')
         for lab in k.referential_integrity(pm):
             orc.fail(lab)
     except Exception as ex:  # noqa: BLE001
